@@ -400,7 +400,7 @@ def roots(tier, seed):
         for kind in HEAVY_KINDS:
             out.append(dict(window=list(w), kind=kind, wi=wi, unequal=True))
     heavy.sort(key=lambda t: t[0])
-    return [r for _, r in heavy] + _long_roots(tier) + _ongrid_roots(tier) + out
+    return [r for _, r in heavy] + _long_roots(tier) + _ongrid_roots(tier) + _mixed_dt_roots(tier) + out
 
 
 LONG_LENGTHS = [32768, 32769, 40000]
@@ -521,6 +521,124 @@ def _run_ongrid(root, ctx, tier):
                     _one_case(ctx, root, kind, tag, w, kind.get("nwin", 1), cfg, fcs_sets[fcs_name], False)
     ctx.nontrivial_case(("ongrid", root["wi"], repr(root["smoothing"])))
 
+# ---------------------------------------------------------------------------
+# Records with DIFFERENT time steps in one call (default handling: every record is transformed on its own
+# frequency grid and smoothed onto the common centre frequencies).  hvsrpy processes such a list group by group
+# and puts the rows back in the caller's order; "each returned curve" is the curve of ITS record, so row i is
+# judged against the reference pipeline of record i alone (its own dt) (its own grid).
+# Orders: every sequence of length 3 and 4 over two time steps in which both occur, plus sequences of length 5
+# over three time steps - this contains orders whose grouping permutation is not its own inverse (3- and 4-cycles).
+
+MIXED_DTS = [0.01, 0.02, 0.005]
+MIXED_L = 128
+MIXED_KINDS = [k for k in
+               [dict(kind="fd", method=m) for m in FD_METHODS] +
+               [dict(kind="single", method="single_azimuth", azimuth=30),
+                dict(kind="rotdpp", percentile=50, azset="four"), dict(kind="azimuthal", azset="shuffled")]]
+MIXED_KINDS_QUICK = [k for k in MIXED_KINDS if k.get("method", "geometric_mean") in
+                     ("geometric_mean", "squared_average", "maximum_horizontal_value", "single_azimuth")]
+FFT_REQ["n512"] = lambda: {"n": 512}
+
+
+def mixed_dt_sequences():
+    seqs = [list(q) for n in (3, 4) for q in itertools.product((0, 1), repeat=n) if len(set(q)) == 2]
+    seqs += [[0, 1, 2, 0, 1], [2, 0, 1, 1, 0], [1, 0, 0, 2, 0], [1, 2, 0, 2, 1]]
+    return seqs
+
+
+def _grouping_is_involution(seq):
+    """Is the permutation 'position in the order grouped by time step (groups by first appearance)' its own
+    inverse?  (Only for the non-vacuity counter; the oracle does not depend on how hvsrpy groups.)"""
+    firsts = []
+    for d in seq:
+        if d not in firsts:
+            firsts.append(d)
+    order = [i for d in firsts for i in range(len(seq)) if seq[i] == d]      # order[cur] = org
+    return all(order[order[i]] == i for i in range(len(seq)))
+
+
+def _mixed_dt_roots(tier):
+    w = ["noise1", "noise2", "noise3", MIXED_L, MIXED_DTS[0], 1.0]
+    return [dict(window=w, kind=k, wi=-2, mixed_dt=True)
+            for k in (MIXED_KINDS if tier == "thorough" else MIXED_KINDS_QUICK)]
+
+
+def _run_mixed_dt(root, ctx, tier):
+    w = tuple(root["window"])
+    kind = root["kind"]
+    tag = _kind_tag(kind)
+    L = w[3]
+    fs_min = 1.0 / max(MIXED_DTS)
+    fcs = [0.123 * fs_min, 0.277 * fs_min, 0.41 * fs_min]        # below every record's Nyquist frequency
+    ops = [["konno_and_ohmachi", 10.0], ["linear_rectangular", 6 * fs_min / L], ["parzen", 7.13 * L / (6 * fs_min)]]
+    if tier == "quick":
+        ops = ops[:2]
+    naz = len(AZ_SETS[kind["azset"]]) if kind["kind"] == "azimuthal" else 1
+    for seq in mixed_dt_sequences():
+        dts = [MIXED_DTS[d] for d in seq]
+        base = _arrays(make_records(w, len(seq)))       # record i differs from record j in all three components
+
+        def build(idx):
+            return [SeismicRecording3C(TimeSeries(base[i][0].copy(), dts[i]), TimeSeries(base[i][1].copy(), dts[i]),
+                                       TimeSeries(base[i][2].copy(), dts[i])) for i in idx]
+        for op in ops:
+            for fft in ("nopad", "n512"):
+                cfg = dict(fft=fft, smoothing=list(op), tukey=0.1, fcs="mixed")
+                detail = dict(kind=kind, config=cfg, fcs=fcs, time_steps=dts)
+                ctx.count("states")
+                ctx.count("mixed_dt_cases")
+                if not _grouping_is_involution(seq):
+                    ctx.count("mixed_dt_orders_whose_grouping_is_not_an_involution")
+                settings = make_settings(kind, cfg, fcs)
+                res = run_process(build(range(len(seq))), settings)
+                ctx.count("transitions")
+                n = None if settings.fft_settings is None else settings.fft_settings.get("n")
+                if res[0] == "ok" and (n is None or n < L):
+                    ctx.violation(f"C01:{tag}:fft-length-shorter-than-window", root, detail=detail,
+                                  expected=f">= {L}", observed=n, explanation="FFT length after the call is smaller "
+                                                                              "than the window")
+                    continue
+                n = n if n is not None and n >= L else (L if fft == "nopad" else 512)
+                refs, skip, positive = [], np.zeros(len(fcs), dtype=bool), True
+                for i in range(len(seq)):
+                    r_i, kn, pos, _ = reference(kind, cfg, fcs, [base[i]], dts[i], n)
+                    refs.append(r_i)
+                    skip |= np.asarray(kn, dtype=bool)
+                    positive = positive and pos and bool(np.all(np.isfinite(r_i)))
+                if not positive:
+                    ctx.count("skipped_nonpositive_reference")
+                    continue
+                if res[0] == "raised":
+                    ctx.violation(f"C01:{tag}:mixed-dt:raises:{res[1]}", root, detail=detail, expected="curves",
+                                  observed=list(res[1:]), explanation="process() raised on records with different "
+                                  "time steps although every record's reference ratio is finite and positive")
+                    continue
+                amp = res[1]
+                if amp.shape != (naz * len(seq), len(fcs)):
+                    ctx.violation(f"C01:{tag}:mixed-dt:shape", root, detail=detail,
+                                  expected=[naz * len(seq), len(fcs)], observed=list(amp.shape),
+                                  explanation="number of curves/centres differs from the reference")
+                    continue
+                ctx.count("validated")
+                cols = ~skip
+                if not cols.any():
+                    ctx.count("centres_not_compared_knife_or_illconditioned", int(skip.sum()))
+                    continue
+                # rows of record i: azimuthal results are azimuth-major (one HvsrTraditional per azimuth)
+                got = [amp[i::len(seq)] if naz > 1 else amp[i:i + 1] for i in range(len(seq))]
+                wrong = [i for i in range(len(seq)) if not close(got[i][:, cols], refs[i][:, cols], rtol=RTOL)]
+                if wrong:
+                    permuted = all(any(close(got[i][:, cols], refs[j][:, cols], rtol=RTOL) for j in range(len(seq)))
+                                   for i in range(len(seq)))
+                    ctx.violation(f"C01:{tag}:mixed-dt:" + ("rows-permuted" if permuted else "ratio"), root,
+                                  detail=dict(detail, wrong_records=wrong, fft_n=n),
+                                  expected=[r.tolist() for r in refs], observed=[g.tolist() for g in got],
+                                  explanation="with records of different time steps in one call, the curve(s) returned "
+                                              "for record i are not smoothed horizontal / smoothed vertical of "
+                                              "record i" + ("; every row is the correct curve of ANOTHER record "
+                                                            "(rows not in the caller's order)" if permuted else ""))
+    ctx.nontrivial_case(("mixed_dt", repr(kind)))
+
 
 def _kind_tag(kind):
     return kind["kind"] + (":" + kind["method"] if "method" in kind else "")
@@ -545,6 +663,9 @@ def run_root(root, ctx, tier):
         return
     if root.get("ongrid"):
         _run_ongrid(root, ctx, tier)
+        return
+    if root.get("mixed_dt"):
+        _run_mixed_dt(root, ctx, tier)
         return
     w = tuple(root["window"])
     kind = root["kind"]
@@ -767,8 +888,18 @@ def describe(tier):     # noqa: F811
         "such a bin belongs to the (closed) window - it is compared, not skipped as a knife edge - for the kernels "
         "whose weight does not vanish at the end (linear_rectangular, log_rectangular, konno_and_ohmachi); a "
         "violation confined to such centres carries the key suffix ':exact-window-end'.")
+    d["rule"] += (
+        " Mixed-time-step roots: one root per kind (frequency-domain names, single_azimuth 30, rotdpp 50 x four "
+        "azimuths, azimuthal x shuffled azimuths; diffuse field excluded: it sums the windows) with record lists of "
+        "128-sample records whose time steps differ within ONE call: every sequence of length 3 and 4 over "
+        "{0.01, 0.02} s in which both occur (20) plus 4 sequences of length 5 over {0.01, 0.02, 0.005} s - orders "
+        "whose grouping-by-time-step permutation is a 3- or 4-cycle included - x 3 operators x FFT {nopad, n=512}; "
+        "oracle: the row(s) of record i equal the reference pipeline of record i alone on its own frequency grid "
+        "(key ':mixed-dt:ratio', or ':mixed-dt:rows-permuted' when every row is the correct curve of another "
+        "record).  Quick: 6 kinds, 2 operators.")
     d["bounds"] = dict(d["bounds"], long_unequal_lengths=list(LONG_UNEQUAL_LENGTHS),
-                       exact_window_end_windows=len(ONGRID_WINDOWS))
+                       exact_window_end_windows=len(ONGRID_WINDOWS), mixed_dt_sequences=len(mixed_dt_sequences()),
+                       mixed_dt_time_steps=list(MIXED_DTS))
     d["assumptions"] = list(d["assumptions"]) + [
         "a sample whose distance from the centre equals the half-width EXACTLY (in rational arithmetic on the doubles "
         "handed over; log kernels: whole-decade half-widths only) is inside the window (ref/kernels.py pins the "
@@ -780,7 +911,8 @@ def describe(tier):     # noqa: F811
 
 
 # what the enumeration must have entered for the oracles not to be vacuous
-NONVACUITY = ["validated", "unequal_length_cases", "long_unequal_length_cases", "ongrid_cases",
+NONVACUITY = ["validated", "mixed_dt_cases", "mixed_dt_orders_whose_grouping_is_not_an_involution",
+              "unequal_length_cases", "long_unequal_length_cases", "ongrid_cases",
               "centres_with_bin_exactly_on_window_end:linear_rectangular",
               "centres_with_bin_exactly_on_window_end:log_rectangular",
               "centres_with_bin_exactly_on_window_end:konno_and_ohmachi"]
